@@ -70,6 +70,7 @@ type Profile struct {
 	FlushMargins []int
 	EnumFlush  bool // thorough: enumerate every subset of small flushes
 	BigInsertOnly bool // growth runs: mostly inserts into one table
+	WideInserts   bool // every INSERT carries MaxRows rows
 }
 
 type gen struct {
@@ -646,6 +647,9 @@ func (g *gen) genStmts(n int, small bool) []Stmt {
 			nr := 1
 			if g.r.Chance(0.5) {
 				nr = g.r.Range(1, pf.MaxRows)
+			}
+			if pf.WideInserts {
+				nr = pf.MaxRows
 			}
 			emit(g.stmtInsert(db, t, nr))
 		case 2:
